@@ -61,12 +61,22 @@ def r17_1(ctx):
     p0 = sniff.params[0]
     opens = [c for c in walk_own(sniff.node) if isinstance(c, ast.Call) and norm(c.func) == "open"]
     reads_magic = False
-    for r in walk_own(sniff.node):
-        if isinstance(r, ast.Return) and isinstance(r.value, ast.Compare) and len(r.value.ops) == 1 and isinstance(r.value.ops[0], ast.Eq):
-            l, rr = r.value.left, r.value.comparators[0]
-            for a, b in ((l, rr), (rr, l)):
-                if isinstance(b, ast.Constant) and b.value == b"\x1f\x8b" and isinstance(a, ast.Call) and isinstance(a.func, ast.Attribute) and a.func.attr == "read" and a.args and const_value(a.args[0]) == 2:
-                    reads_magic = True
+    from ..core import const_fold, resolve_expr, with_str_consts
+
+    sn_ = with_str_consts(sniff)
+    for r in walk_own(sn_.node):
+        if isinstance(r, ast.Return) and r.value is not None:
+            rv = ast.parse(resolve_expr(sn_.node, r.value), mode="eval").body
+            if isinstance(rv, ast.Compare) and len(rv.ops) == 1 and isinstance(rv.ops[0], ast.Eq):
+                l, rr = rv.left, rv.comparators[0]
+                for a, b in ((l, rr), (rr, l)):
+                    if isinstance(b, ast.Constant) and b.value == b"\x1f\x8b" and isinstance(a, ast.Call) and isinstance(a.func, ast.Attribute) and a.func.attr == "read" and a.args:
+                        try:
+                            nbytes = const_fold(a.args[0], {})
+                        except ValueError:
+                            nbytes = None
+                        if nbytes == 2:
+                            reads_magic = True
     ok = reads_magic and len(opens) == 1 and norm(opens[0].args[0]) == p0 and const_value(opens[0].args[1]) == "rb" if opens and len(opens[0].args) > 1 else False
     ctx.check(ok, "R17.1", sniff.where(), "compression is detected from the content: the first two bytes of the file are compared with the gzip magic number (a BGZF file under any name is recognised, a plain file named *.gz is not misread)", key_of(sniff, f"sniff:{src[:120]}"))
     # every opener of a GAF path
@@ -326,9 +336,24 @@ def passes_to_parser(node, var):
 
 def r17_3(ctx):
     repo = ctx.repo
-    rg = repo.func("gaftools.gfa", "GFA.read_graph", "R17.3")
+    from ..core import same_func, tail_inlined
+
+    rg0 = repo.func("gaftools.gfa", "GFA.read_graph", "R17.3")
+    rg = tail_inlined(repo, rg0, keep=lambda c: c.name in ("add_node", "add_edge"))
     ctx.analysed_func(rg)
     p0 = rg.params[1]
+    # private helpers that only the reader (or such a helper) calls belong to the reader
+    own = {rg0.qualname}
+    grew = True
+    while grew:
+        grew = False
+        for cand in rg0.module.funcs.values():
+            if cand.qualname in own:
+                continue
+            callers = repo.callers_of(cand)
+            if callers and all(cf.qualname in own and cf.module is rg0.module for cf, _ in callers):
+                own.add(cand.qualname)
+                grew = True
     chain = [s for s in rg.node.body if isinstance(s, ast.If) and "endswith" in norm(s.test)]
     ok = False
     detail = {}
@@ -346,7 +371,7 @@ def r17_3(ctx):
     # who opens graph files elsewhere
     others = []
     for f in repo.all_funcs():
-        if f is rg:
+        if f.module is rg0.module and f.qualname in own:
             continue
         for c in walk_own(f.node):
             if isinstance(c, ast.Call) and norm(c.func) in ("open", "gzip.open") and c.args:
